@@ -27,7 +27,8 @@ def entry_spec(p, style, args_src="()", options=None, keep_path=None):
 def compile_case(case, root, store_dir, ref_paths_file):
     """-> list of (impl_seg, ref_seg, [indices of history steps])"""
     versions = case["versions"]
-    accept = sorted(set(v["pkg"] for v in versions) | set(m for v in versions for m in gen.lazy_modules(v)))
+    accept = sorted(set(v["pkg"] for v in versions if not v.get("accept_by_module")) | set(m for v in versions for m in gen.lazy_modules(v))
+                    | set(gen.modname(v, m) for v in versions if v.get("accept_by_module") for m in v["modules"]))
     segs = []
     cur = None
     prev_v = None
